@@ -610,9 +610,14 @@ class atom(boolean.AndRestriction):
 
         # If one of us is a glob match and the other a ~ we match if the glob
         # matches the ~ (ignoring a revision on the glob):
+        # (a glob with a revision only matches revisions of that very version)
         if self.op == "=*" and other.op == "~":
+            if self.revision:
+                return other.version == self.version
             return other.fullver.startswith(self.version)
         if other.op == "=*" and self.op == "~":
+            if other.revision:
+                return self.version == other.version
             return self.fullver.startswith(other.version)
 
         # If we get here at least one of us is a <, <=, > or >=:
@@ -699,6 +704,9 @@ class atom(boolean.AndRestriction):
                 # If and only if other also matches ranged then
                 # ranged will match such a larger package
                 # XXX (I think, need to try harder to verify this.)
+                if other.revision:
+                    # only (ever larger) revisions of that very version match
+                    return ranged.version == other.version
                 return ranged.fullver.startswith(other.version)
 
         # Handled all possible ops.
